@@ -319,7 +319,8 @@ Inductive cspec :=
 | CTrunc (bs : bytes) (maxb : N)
 | CPump (cap plimit : N) (content : list (bytes * N)) (sizes : list N)
 | CCapture (pmax amax : N) (content : list (bytes * N)) (sizes : list N)
-| CLifecycle (t : list lev).
+| CLifecycle (t : list lev)
+| CPtyRun (sched : list pact).
 
 Record case := { c_spec : cspec; c_expect : list N }.
 
@@ -341,6 +342,7 @@ Definition observe (s : cspec) : list N :=
   | CCapture pmax amax content sizes =>
     enc_capture (capture_stream fnv pmax amax (split_sizes sizes (expand content)))
   | CLifecycle t => lc_check [] t
+  | CPtyRun sched => pty_check sched
   end.
 
 Definition check_case (c : case) : bool := lN_eqb (observe (c_spec c)) (c_expect c).
